@@ -164,3 +164,53 @@ Fixpoint vni_go (idx : Z) (l : list step) : list (Z * Z) :=
   | st :: t => map (fun i => (idx, i)) (s_issues st) ++ vni_go (idx + 1) t
   end.
 Definition vni (l : list step) : list (Z * Z) := vni_go 0 l.
+
+(** ** validator.Validators.Validate over validator.All(): the three validators
+    one after the other, results appended in that order *)
+Definition chain (a b : list vissue) (n : list (Z * Z)) : list (vissue + Z * Z) :=
+  map inl a ++ map inl b ++ map inr n.
+Definition vall (files : outcome (list ref)) (l : list step) : outcome (list (vissue + Z * Z)) :=
+  bind (vap l) (fun a => bind (vfc files l) (fun b => Ok (chain a b (vni l)))).
+
+(** ** pcr0tool validate_security, before it runs the validators:
+    [measuredRefs := state.MeasuredData.References(); measuredRefs.SortAndMerge()]
+    (what it prints as "Measured/protected data") *)
+Definition sm_all (l : list step) : outcome (list ref) := sm (flat_map s_meas l).
+
+(** ** MeasuredDataSlice.References(): the references of all entries, in order *)
+Definition mds_refs {A} (ds : list (list A)) : list A := concat ds.
+
+(** ** datasources.UEFIFiles(filter).Data with the filter of
+    ValidatorFinalCoverageIsComplete *)
+
+(** a *uefi.File node of the parsed image as ffs.NodeVisitor hands it to the
+    callback: node.Range (image offsets; Offset = MaxUint64 when the offset could
+    not be determined) and the types of the file's sections, in order *)
+Record fnode := mkFN { fn_off : Z; fn_len : Z; fn_secs : list Z }.
+
+Definition SEC_PE32 : Z := 16.   (* uefi.SectionTypePE32 *)
+Definition SEC_PIC : Z := 17.    (* uefi.SectionTypePIC *)
+Definition SEC_TE : Z := 18.     (* uefi.SectionTypeTE *)
+Definition MAXU64 : Z := 18446744073709551615.
+
+(** the filter: some section of the file is PE32, PIC or TE *)
+Definition is_exec_sec (t : Z) : bool := (t =? SEC_PE32) || (t =? SEC_PIC) || (t =? SEC_TE).
+Definition file_matches (n : fnode) : bool := existsb is_exec_sec (fn_secs n).
+
+(** PhysMemMapper.UnresolveFullImageOffset on one range (uint64 arithmetic) *)
+Definition unresolve_full (size : Z) (r : range) : range :=
+  mkR (wrap64 (wrap64 (roff r + W32) - size)) (rlen r).
+
+(** [nodes]: every file node of the image in visiting order.  [Err 3]: a matching
+    file without an offset (multierror); an image that cannot be fetched or parsed
+    is an error before this function is reached.  The ranges are sorted and merged
+    ([ranges.SortAndMerge()]); no range at all: [&types.Data{}], no reference. *)
+Definition uefi_files (img : art) (nodes : list fnode) : outcome (list ref) :=
+  let found := filter file_matches nodes in
+  if existsb (fun n => fn_off n =? MAXU64) found then Err 3
+  else
+    let size := zlen (acontent img) in
+    match ranges_sm (map (fun n => unresolve_full size (mkR (fn_off n) (fn_len n))) found) with
+    | [] => Ok []
+    | rs => Ok [mkRef img MPhys rs]
+    end.
